@@ -460,6 +460,14 @@ func perturbations(b Route) []pert {
 			r.Rets[len(r.Rets)-1] = "string"
 			return true
 		}},
+		// a last return type written over several lines (the diagnostic's range must still be well-formed)
+		pert{"ret.last->multi-line-generic", func(r *Route) bool {
+			if len(r.Rets) < 2 {
+				return false
+			}
+			r.Rets[len(r.Rets)-1] = "Wrap§[\n\tint,\n]"
+			return true
+		}},
 		pert{"ret.last->CErr", func(r *Route) bool {
 			if len(r.Rets) == 0 || r.Rets[len(r.Rets)-1] == "CErr§" {
 				return false
@@ -483,6 +491,14 @@ func perturbations(b Route) []pert {
 			return true
 		}},
 		pert{"ret.add-third", func(r *Route) bool { r.Rets = append([]string{"int"}, r.Rets...); return len(r.Rets) == 3 }},
+		pert{"ret.add-third-with-multi-line-last", func(r *Route) bool {
+			r.Rets = append([]string{"int"}, r.Rets...)
+			if len(r.Rets) != 3 {
+				return false
+			}
+			r.Rets[2] = "Wrap§[\n\tint,\n]"
+			return true
+		}},
 	)
 	// the same route with its annotations / its parameters written in the opposite order: order is not part of any rule
 	ps = append(ps, pert{"anns.reversed", func(r *Route) bool {
@@ -590,7 +606,7 @@ func render(id string, r Route) scen.Unit {
 			ctl.Methods = append(ctl.Methods, sib)
 		}
 	}
-	decl := sub("type Body§ struct {\n\tA string `json:\"a\"`\n}\n\ntype E§ string\n\nconst (\n\tE§A E§ = \"a\"\n\tE§B E§ = \"b\"\n)\n\ntype TS§ string\n\ntype CErr§ struct {\n\terror\n\tCode int `json:\"code\"`\n}\n")
+	decl := sub("type Body§ struct {\n\tA string `json:\"a\"`\n}\n\ntype E§ string\n\nconst (\n\tE§A E§ = \"a\"\n\tE§B E§ = \"b\"\n)\n\ntype TS§ string\n\ntype CErr§ struct {\n\terror\n\tCode int `json:\"code\"`\n}\n\ntype Wrap§[T any] struct {\n\tV T `json:\"v\"`\n}\n")
 	u := scen.Unit{Controllers: []scen.Controller{ctl}, Decls: map[string]string{id: decl}, Imports: map[string][]string{id: {"context"}}}
 	for _, rt := range r.Rets {
 		if strings.Contains(rt, "xerr.") {
@@ -762,6 +778,66 @@ func controllerTwinsCLI(run *core.Run, scratch string) {
 	}
 }
 
+// routelessControllersCLI: an error in a controller's own annotations fails the command whether or not that
+// controller ends up with any route. The controller with the error is written three ways - with a routed method
+// (the control), with a method that lost its annotations, with a hidden method only - next to a healthy controller.
+func routelessControllersCLI(run *core.Run, scratch string) {
+	errLines := [][]string{{"// @Tagg(x)"}, {"// @Method(GET)"}, {"// @Query(q)"}}
+	shapes := []string{"routed method", "method without annotations", "no method"}
+	type res struct {
+		exit      int
+		untouched bool
+		out       string
+	}
+	for ei, el := range errLines {
+		results := make([]res, len(shapes))
+		var cases []any
+		for si, shape := range shapes {
+			id := fmt.Sprintf("g%02d%02d", ei, si)
+			ok := scen.Controller{Name: "Ok" + id, Pkg: id, Prefix: scen.S("/" + id + "/ok"), Tag: scen.S("T" + id), Methods: []scen.Method{{Name: "Get" + id, Verb: "GET", Route: scen.S("/one"), Body: "\tpanic(\"never called\")\n"}}}
+			bare := scen.Controller{Name: "Bare" + id, Pkg: id, Prefix: scen.S("/" + id + "/bare"), Extra: el}
+			switch si {
+			case 0:
+				bare.Methods = []scen.Method{{Name: "Routed" + id, Verb: "GET", Route: scen.S("/two"), Body: "\tpanic(\"never called\")\n"}}
+			case 1:
+				bare.Methods = []scen.Method{{Name: "Plain" + id, Body: "\tpanic(\"never called\")\n"}}
+			}
+			u := scen.Unit{Controllers: []scen.Controller{ok, bare}}
+			rn := &scen.Runner{Scratch: scratch, BaseCfg: fam.DefaultCfg}
+			p := rn.BuildProject([]scen.Case{{ID: id, Unit: u}})
+			p.Files["dist/openapi.json"] = "STALE SPEC\n"
+			p.Files["dist/routes/gleece.routes.go"] = "// STALE ROUTES\n"
+			dir := filepath.Join(scratch, "bare-"+id)
+			if err := p.Write(dir); err != nil {
+				core.Harness("cannot write project: %v", err)
+			}
+			r := scen.RunCLI(dir, []string{"generate", "spec-and-routes", "-c", "./gleece.config.json"}, 120)
+			os.RemoveAll(dir)
+			run.AddValidated(1)
+			results[si] = res{r.Exit, r.Files["dist/openapi.json"] == "STALE SPEC\n" && r.Files["dist/routes/gleece.routes.go"] == "// STALE ROUTES\n", lastLines(r.Output, 3)}
+			if os.Getenv("VERIF_DEBUG") != "" {
+				fmt.Fprintf(os.Stderr, "DEBUG routeless %s %s exit=%d %s\n", el[0], shape, r.Exit, lastLines(r.Output, 6))
+			}
+			cases = append(cases, map[string]any{"id": id, "shape": shape, "controllers": u.Controllers})
+		}
+		if results[0].exit == 0 {
+			// the control is not an error-severity problem: nothing to compare
+			run.Outcome("routeless-controllers: control accepted", 1)
+			continue
+		}
+		for si := 1; si < len(shapes); si++ {
+			feat := map[string]string{"family": "routeless-controllers", "annotation": el[0], "shape": shapes[si], "seam": "cli"}
+			switch {
+			case results[si].exit == 0:
+				run.Report(core.Violation{Oracle: "controller-error-fails-the-command-with-or-without-routes", Features: feat, What: fmt.Sprintf("controller annotation %q fails the command when the controller has a routed method, but with %s the command exits 0 and writes its artifacts", el[0], shapes[si]), Case: cases[si]})
+			case !results[si].untouched:
+				run.Report(core.Violation{Oracle: "failed-command-writes-nothing", Features: feat, What: "the command failed but modified an output file: " + results[si].out, Case: cases[si]})
+			}
+			run.Outcome("routeless-controllers: judged", 1)
+		}
+	}
+}
+
 // linkLevel: perturbations of annotations and template names other than re-kinding / re-targeting (those are
 // covered one at a time).
 func linkLevel(name string) bool {
@@ -774,6 +850,10 @@ func Main(tier, replay string) {
 	run := core.NewRun("C10", tier)
 	scratch := scen.MkScratch("c10")
 	defer os.RemoveAll(scratch)
+	if os.Getenv("VERIF_DEBUG") == "routeless" {
+		routelessControllersCLI(run, scratch)
+		return
+	}
 	cases, info := buildCases(tier)
 	deadline := core.Deadline(tier, 8*time.Minute, 50*time.Minute)
 	f := fam.Family{Name: "link", Cases: cases, BaseCfg: fam.DefaultCfg, PackSize: 60}
@@ -839,6 +919,7 @@ func Main(tier, replay string) {
 	if replay == "" {
 		errorTypeTwins(run, scratch)
 		controllerTwinsCLI(run, scratch)
+		routelessControllersCLI(run, scratch)
 	}
 	run.AddStates(int64(len(cases)))
 	run.AddTransitions(rn.Projects.Load())
